@@ -40,6 +40,13 @@ func genC11(r *rt.Rand, tier string, idx int) *world.Scenario {
 	}
 	sc.MetricsKV = r.Chance(0.35)
 	sc.Class = "raw-engine-ops"
+	keyPool := c11Keys
+	if idx%3 == 2 {
+		// several hundred keys: an iteration then spans more than one fetch of the engine client
+		sc.Class = "raw-engine-ops-over-300-keys"
+		sc.Extra = map[string]int64{"bulk": int64(280 + r.Intn(60))}
+		keyPool = append(append([]string{}, c11Keys...), "b000", "b100", "b270", "b279")
+	}
 	nc := 1 + r.Intn(3)
 	vn := 0
 	val := func() string { vn++; return fmt.Sprintf("v%d", vn) }
@@ -54,12 +61,12 @@ func genC11(r *rt.Rand, tier string, idx int) *world.Scenario {
 			n = 6 + r.Intn(16)
 		}
 		for i := 0; i < n; i++ {
-			k := c11Keys[r.Intn(len(c11Keys))]
+			k := keyPool[r.Intn(len(keyPool))]
 			switch r.Weighted(34, 10, 8, 16, 16, 6, 10) {
 			case 0: // batch
 				var parts []string
 				for j := 0; j < 1+r.Intn(4); j++ {
-					bk := c11Keys[r.Intn(len(c11Keys))]
+					bk := keyPool[r.Intn(len(keyPool))]
 					switch r.Weighted(25, 25, 30, 10, 10) {
 					case 0:
 						v := val()
@@ -186,6 +193,18 @@ func c11Custom(t *testing.T, sc *world.Scenario, out *Outcome) {
 	}
 	var attempts []attempt
 	ctx := context.Background()
+	if n := int(sc.Extra["bulk"]); n > 0 {
+		bw := st.BeginBatchWrite()
+		for i := 0; i < n; i++ {
+			k, v := fmt.Sprintf("b%03d", i), fmt.Sprintf("bulk%d", i)
+			bw.Put([]byte(k), []byte(v), 0)
+			model[k] = v
+		}
+		if err := bw.Commit(ctx); err != nil {
+			out.Infra = "bulk load: " + err.Error()
+			return
+		}
+	}
 	done := 0
 	overlapped := false
 	inBatch := 0
